@@ -119,6 +119,9 @@ def shape(parts):
 
 def render_real(cls, arg, env, **cfg):
     try:
+        if cls.__name__ == 'PageTextTemplate':
+            from vlib import routes, state
+            return routes.make(cls, arg, 8, state.CTX, **cfg)(**env)
         return cls(arg, **cfg)(**env)
     except Exception as e:
         try:
